@@ -544,6 +544,23 @@ impl<'a> VisitMut for Rules<'a> {
             let mut out: Vec<syn::Stmt> = Vec::with_capacity(b.stmts.len());
             for st in b.stmts.drain(..) {
                 let mut done = false;
+                // `M.entry(K).or_insert_with(|| V);` is the same with V evaluated only when the key is absent
+                if let syn::Stmt::Expr(syn::Expr::MethodCall(oi), Some(_)) = &st {
+                    if oi.method == "or_insert_with" && oi.args.len() == 1 {
+                        if let (syn::Expr::MethodCall(en), syn::Expr::Closure(cl)) = (&*oi.receiver, &oi.args[0]) {
+                            if en.method == "entry" && en.args.len() == 1 && is_r13_map(self.ctx, &en.receiver) && cl.inputs.is_empty() {
+                                let k = self.ctx.fresh();
+                                let kk = syn::Ident::new(&format!("vx_k{}", k), proc_macro2::Span::call_site());
+                                let (m, key, val) = (&en.receiver, &en.args[0], &cl.body);
+                                out.push(syn::parse_quote!(let #kk = #key;));
+                                out.push(syn::Stmt::Expr(syn::parse_quote!(if !#m.contains_key(&#kk) { #m.insert(#kk, #val); }), None));
+                                self.ctx.used("R13");
+                                done = true;
+                            }
+                        }
+                    }
+                }
+                if done { continue; }
                 if let syn::Stmt::Expr(syn::Expr::MethodCall(oi), Some(_)) = &st {
                     if oi.method == "or_insert" && oi.args.len() == 1 {
                         if let syn::Expr::MethodCall(en) = &*oi.receiver {
